@@ -166,8 +166,8 @@ Proof. exact ex_run. Qed.
 
 (* premises of Part A are met by a real conflict: two snapshots of version 0, first wins, second gets ConcErr *)
 Example C07_cas_nonvacuous :
-  let n1 := apply_mod (mk_mod None 100 [] []) (snap_of (mk_srow 1 0 1 []) (read_tasks 1 ex_d0)) in
-  let n2 := apply_mod (mk_mod None 200 [] []) (snap_of (mk_srow 1 0 1 []) (read_tasks 1 ex_d0)) in
+  let n1 := apply_mod (mk_mod None (Some 100) [] []) (snap_of (mk_srow 1 0 1 []) (read_tasks 1 ex_d0)) in
+  let n2 := apply_mod (mk_mod None (Some 200) [] []) (snap_of (mk_srow 1 0 1 []) (read_tasks 1 ex_d0)) in
   exists d1 n1', store_stmts (store_variant Plain) (x_task gen_shapes) ex_d0 n1 None = (d1, n1', Ok)
     /\ store_stmts (store_variant Txn) (x_task gen_shapes) d1 n2 (Some 1) = (d1, n2, ConcErr)
     /\ ver_of_db 1 d1 = Some 1.
